@@ -381,7 +381,7 @@ pub fn gen_c04(rng: &mut Prng, run: u64, t: &Tier) -> Vec<Ev> {
 // ---------------------------------------------------------------------------------- histories (C05 and friends)
 
 fn gen_fault(rng: &mut Prng) -> Fault {
-    match rng.below(14) {
+    match rng.below(15) {
         0 | 1 => Fault::BitFlip(Field::Ct, rng.below(1 << 20) as usize),
         2 | 3 => Fault::BitFlip(Field::Tag, rng.below(128) as usize),
         4 => Fault::BitFlip(Field::Aad, rng.below(1 << 20) as usize),
@@ -402,6 +402,7 @@ fn gen_fault(rng: &mut Prng) -> Fault {
                 { let l = rng.range(1, 17); Fault::TagExtend(b(rng.bytes(l))) }
             }
         }
+        13 => Fault::ByteSet(*rng.pick(&[Field::Ct, Field::Tag, Field::Aad]), *rng.pick(&[0i32, 1, -1, -2]), *rng.pick(&[0u8, 1, 0x7f, 0x80, 0xff])),
         _ => Fault::Truncate(rng.below(1 << 16) as usize),
     }
 }
